@@ -25,6 +25,13 @@ CHECKS = {
  "C15": dict(technique="TLC proves the transcribed diff algorithm equal to the net writes of a version (T6); TraverseStateChanges of the real library compared with the TLC-computed change set for every range; SaveChangeSet is a spec action",
    text="diff.go's two-iterator merge is transcribed (Changes) and TLC checks on all consecutive version pairs of a bounded instance that it equals NetChanges (keys written in v and present in v with their value, keys of v-1 absent in v; ascending, once per key) and that applying it to v-1 gives v. Each commit step of a generated behaviour carries Changes(pred, new); after every step the harness calls TraverseStateChanges for every range and compares each version whose predecessor is retained. SaveChangeSet is an action of Iavl.tla (applied as one version; removal of a missing key and a dirty tree are errors). At reopen/end the extracted sets are replayed into an empty store and every version's contents - and hashes while TLC marked the history as normal form - are compared.",
    note="Whether endVersion is inclusive is not judged (doc comment says exclusive, loop is inclusive; the property does not say)."),
+
+ "C07": dict(technique="TLA+ label machine of the fast index (IavlStore.tla) model-checked for coherence (P5); indexed reads and the raw index/label of the real library compared with spec after every step of TLC behaviours; TLC counter-examples replayed on the code",
+   text="IavlStore.tla models the persisted index, its label and the uncommitted overlay as the code maintains them (build from the loaded version, label, commit of additions/removals, invalidation on rollback, import). TLC checks on a bounded instance, for every sequence of opens with independent index on/off and load target, that every read that consults the index equals the tree walk (P5) and that after a commit/open the index describes the latest version; the only admitted deviation is the listed finding F-C07a (ghost `stale`). The same module generates behaviours; after every step all indexed reads (Get, GetVersioned, Iterate/Iterator of the working state incl. uncommitted writes/removals and of the latest version) are compared with the spec tree, and the raw f-entries and label with the label machine. Counter-examples TLC finds on the as-found variant (FixLvfoLabel = FALSE) are replayed on the real code (that is how C07b was reproduced and repaired).",
+   note="Known finding F-C07a (index built from an older loaded version) is tolerated only in states where the specification's ghost says the index is stale, and only for indexed reads."),
+ "C12": dict(technique="storage as a function of the logical state (Disk in IavlStore.tla); raw store of the real library decoded by an independent decoder and compared with TLC's expected entry set after every step",
+   text="IavlStore.tla defines Disk(saved, first, latest): the exact set of entries of the node key space - every node reachable from a retained version under its key (version, nonce), re-keyed (v,0) roots, empty and reference root markers - and TLC checks that keys are unique and (T5) that the transcribed orphan diff equals the set difference of node sets. After every step of crash-free TLC behaviours with synchronous pruning the harness scans the raw store, decodes every entry with an independent decoder and compares with Disk: a missing entry is a loss, an extra one a leak; the persisted fast index must hold exactly the pairs (and versions) the label machine predicts.",
+   note="Nonces are compared exactly (the specification reproduces the pre-order nonce assignment); a child reference / root reference to a re-keyed root may carry nonce 0 or 1."),
 }
 
 NA = {}
